@@ -177,7 +177,7 @@ def strategy_corr(ctx: vlib.Ctx):
 # histories on class families
 # ---------------------------------------------------------------------------
 
-KINDS = ["opt", "int", "alias", "nt", "list", "str", "optstr"]
+KINDS = ["opt", "int", "alias", "nt", "list", "str", "optstr", "bytes"]
 
 
 def gen_spec(r) -> dict:
@@ -215,9 +215,10 @@ def gen_spec(r) -> dict:
             out.append([f"{prefix}in", "inner"])
         return out
 
+    mixin = "DataClassMessagePackMixin" if r.random() < 0.35 else None
     classes = {
-        "Inner": {"base": None, "fields": [["n", "opt"], ["w", "int"]], "config": cfg()},
-        "P": {"base": None, "fields": flds("p", 3, 5, 0.0), "config": cfg()},
+        "Inner": {"base": None, "mixin": mixin, "fields": [["n", "opt"], ["w", "int"]], "config": cfg()},
+        "P": {"base": None, "mixin": mixin, "fields": flds("p", 3, 5, 0.0), "config": cfg()},
         "C": {"base": "P", "fields": flds("c", 1, 3, 0.5), "config": cfg() if r.random() < 0.25 else None},
         "G": {"base": "C", "fields": flds("g", 1, 2, 0.0), "config": cfg() if r.random() < 0.25 else None},
         "S": {"base": "P", "fields": flds("s", 1, 2, 0.4), "config": cfg() if r.random() < 0.25 else None},
@@ -225,7 +226,7 @@ def gen_spec(r) -> dict:
     if any(kd == "inner" for f, kd in classes["C"]["fields"]):
         pass
     return {"dialects": dialects, "classes": classes, "order": ["Inner", "P", "C", "G", "S"], "flags": flags,
-            "base_dialect": base}
+            "base_dialect": base, "mixin": mixin}
 
 
 def covers(spec: dict, di) -> bool:
@@ -254,7 +255,7 @@ def gen_vals(r, fam: F.Family, cname: str) -> dict:
         vals[f] = {"opt": lambda: r.choice([None, 3, 0]), "int": lambda: r.choice([5, 6, 0]),
                    "alias": lambda: r.choice([7, 8]), "nt": lambda: r.choice([[1, 2], [3, 4]]),
                    "list": lambda: r.choice([[], [1, 2], [5]]), "str": lambda: r.choice(["s", "abc"]),
-                   "optstr": lambda: r.choice([None, "x"]),
+                   "optstr": lambda: r.choice([None, "x"]), "bytes": lambda: r.choice(["6162", "00ff10", ""]),
                    "inner": lambda: {"n": r.choice([None, 4]), "w": r.choice([5, 9])}}[kind]()
     return vals
 
@@ -277,7 +278,8 @@ def gen_history(r, spec: dict, n_ops: int) -> list:
         d = r.choice([None] + hot + hot + list(range(1, k + 1)))
         if d is not None and d not in hot:
             hot.append(d)
-        ops.append(["call", c, r.choice(["to", "to", "from"]), d, None])   # vals filled at run time
+        dirs = ["to", "to", "from"] + (["mto", "mto", "mfrom"] if spec.get("mixin") else [])
+        ops.append(["call", c, r.choice(dirs), d, None])   # vals filled at run time
     return ops
 
 
@@ -341,7 +343,8 @@ class HistoryRun:
         self.spec, self.ops, self.r = spec, ops, r
         self.fam = F.Family(spec, None, define_all=False)
         self.twins: dict = {}
-        self.model = {"to": ([], []), "from": ([], [])}     # direction -> (ops, expected outs)
+        self.dirs = ("to", "from", "mto", "mfrom") if spec.get("mixin") else ("to", "from")
+        self.model = {d: ([], []) for d in self.dirs}     # (format, direction) -> (ops, expected outs)
         self.mismatch = None
         self.stats = []
         self.uncovered = 0
@@ -361,7 +364,7 @@ class HistoryRun:
         for idx, op in enumerate(self.ops):
             if op[0] == "define":
                 fam.define(op[1])
-                for d in ("to", "from"):
+                for d in self.dirs:
                     self.model[d][0].append(["define", CID[op[1]]])
                     self.model[d][1].append(None)
                 continue
@@ -372,9 +375,10 @@ class HistoryRun:
             tw = self.twin(di)
             mops, mouts = self.model[direction]
             inner_f = has_inner(fam, c)
-            if direction == "to":
-                got, gid, raw = F.call_to_dict(fam, c, vals, di)
-                exp, eid, _ = F.call_to_dict(tw, c, vals, None)
+            mp = direction in ("mto", "mfrom")
+            if direction in ("to", "mto"):
+                got, gid, raw = F.call_to_dict(fam, c, vals, di, mp)
+                exp, eid, _ = F.call_to_dict(tw, c, vals, None, mp)
                 mops.append(["call", CID[c], di])
                 mouts.append(decode_to(raw))
                 if inner_f and isinstance(raw, dict):
@@ -385,20 +389,20 @@ class HistoryRun:
                 observed, expected = [got, gid], [exp, eid]
             else:
                 if covers(self.spec, di):
-                    _, _, doc = F.call_to_dict(tw, c, vals, None)      # a document of dialect di
+                    _, _, doc = F.call_to_dict(tw, c, vals, None, mp)      # a document of dialect di
                 else:
                     # the call dialect is layered over the classes' own default dialect: the matching document is
                     # the one the family itself writes (one more to_dict call in the history)
-                    _, _, doc = F.call_to_dict(fam, c, vals, di)
-                    tops, touts = self.model["to"]
+                    _, _, doc = F.call_to_dict(fam, c, vals, di, mp)
+                    tops, touts = self.model["mto" if mp else "to"]
                     tops.append(["call", CID[c], di])
                     touts.append(decode_to(doc))
                     if inner_f and isinstance(doc, dict):
                         nested = [v for v in doc.values() if isinstance(v, dict) and "t_Inner" in v]
                         tops.append(["call", CID["Inner"], di])
                         touts.append(decode_to(nested[0]) if nested else None)
-                got, res = F.call_from_dict(fam, c, doc, di)
-                exp, _ = F.call_from_dict(tw, c, doc, None)
+                got, res = F.call_from_dict(fam, c, doc, di, mp)
+                exp, _ = F.call_from_dict(tw, c, doc, None, mp)
                 mops.append(["call", CID[c], di])
                 mouts.append(decode_from(res))
                 if inner_f and isinstance(doc, dict) and res is not None:
@@ -432,7 +436,7 @@ def classify_history_failure(hr: HistoryRun, mm: dict) -> dict:
     c, direction, di, vals = mm["op"]
     sig = {"kind": "call-dialect-differs-from-twin", "direction": direction}
     flags = hr.spec.get("flags", ["dialect"])
-    if direction == "to" and di is not None and ("omit_none" in flags or "by_alias" in flags):
+    if direction in ("to", "mto") and di is not None and ("omit_none" in flags or "by_alias" in flags):
         dspec = hr.spec["dialects"][str(di)]
         drop = []
         if "omit_none" in flags and dspec.get("omit_none") is not None:
@@ -446,9 +450,9 @@ def classify_history_failure(hr: HistoryRun, mm: dict) -> dict:
             # the difference must be confined to those projections: the real result equals the twin
             # whose default dialect is D without the options steered by keyword flags
             tw2 = hr.twin(("mod", di, tuple(drop)))
-            exp2, eid2, _ = F.call_to_dict(tw2, c, vals, None)
+            exp2, eid2, _ = F.call_to_dict(tw2, c, vals, None, direction == "mto")
             if [exp2, eid2] == [mm["observed"][0], mm["observed"][1]]:
-                sig = {"kind": "call-dialect-vs-flag-defaults", "direction": "to"}
+                sig = {"kind": "call-dialect-vs-flag-defaults", "direction": direction}
     return sig
 
 
@@ -468,20 +472,21 @@ def history_part(ctx: vlib.Ctx):
                 ctx.hist("history_calls", f"{direction}:{'none' if di is None else 'dialect'}")
                 ctx.hist("history_class", c)
             ctx.hist("family_flags", "+".join(spec["flags"]))
+            ctx.hist("family_mixin", spec.get("mixin") or "DataClassDictMixin")
             ctx.hist("family_default_dialect", "own Config.dialect" if spec.get("base_dialect") else "none")
             if hr.uncovered:
                 ctx.hist("history_calls", "skipped:call-dialect-does-not-cover-Config.dialect", hr.uncovered)
             if mm is not None:
                 sig = classify_history_failure(hr, mm)
                 upto = [list(o) for o in ops[:mm["index"] + 1]]
-                ctx.fail(f"{mm['op'][0]}.{'to_dict' if mm['op'][1] == 'to' else 'from_dict'}(dialect=D{mm['op'][2]}) after "
+                ctx.fail(f"{mm['op'][0]}.{ {'to': 'to_dict', 'from': 'from_dict', 'mto': 'to_msgpack', 'mfrom': 'from_msgpack'}[mm['op'][1]] }(dialect=D{mm['op'][2]}) after "
                          f"{mm['index']} earlier operations differs from the twin family whose default dialect is D{mm['op'][2]}",
                          {"entry": "history", "spec": spec, "source": F.family_source(spec), "ops": upto,
                           "observed": mm["observed"], "expected": mm["expected"]}, sig)
                 if sig["kind"] == "call-dialect-vs-flag-defaults":
                     kf_hits += 1
             else:
-                for d in ("to", "from"):
+                for d in hr.dirs:
                     cases.append(hr.cache_case(d))
                     descr.append({"direction": d, "spec": spec, "ops": [list(o) for o in ops]})
                 if h < 2:
